@@ -655,7 +655,7 @@ impl InstrFormat for MsgHooks {
             Err(e) => return Err(e),
         };
 
-        let opcode = f.read_i8()?;
+        let opcode = f.read_u8()?;
         let argsize = f.read_u8()?;
         let args_blob = f.read_byte_vec(argsize as usize)?;
         let instr = RawInstr { time: time.into(), opcode: opcode as _, param_mask: 0, args_blob, ..RawInstr::DEFAULTS };
